@@ -99,6 +99,29 @@ example : parseStream 2 (streamOf [⟨5, [], [1, 2]⟩, ⟨-1, [97], []⟩]) =
 example : parseStream 3 ((frame 5 [] [1, 2]).drop 19 ++ frame 5 [] [1, 2]) ≠ ([⟨10, 0, 5, 0, [1, 2]⟩], []) := by
   decide +kernel
 
+/-! ### the other frame variants of DataOutputX / pack (public API, not used by the one-way client) -/
+
+/-- the secure frame (`WriteSecureHeader`): source, version, 8-byte project code, 4-byte object id, 4-byte transfer
+    key, 4-byte length, payload — a parser recovers the six parts and consumes exactly the frame -/
+theorem secure_frame_parse (src ver : Nat) (pcode oid key : Int) (pl r : Bytes) (hs : src < 256) (hv : ver < 256)
+    (hp : inRange 8 pcode) (ho : inRange 4 oid) (hk : inRange 4 key) (hl : pl.length < 2147483648) :
+    P.run parseSecure (secureFrame src ver pcode oid key pl ++ r) = some (⟨src, ver, pcode, oid, key, pl⟩, r) :=
+  run_parseSecure src ver pcode oid key pl r hs hv hp ho hk hl
+
+theorem secure_frame_length (src ver : Nat) (pcode oid key : Int) (pl : Bytes) :
+    (secureFrame src ver pcode oid key pl).length = 22 + pl.length := by
+  simp [secureFrame]; omega
+
+/-- block padding (`ToBytesPackECB`): the result is a whole number of blocks, starts with the payload unchanged,
+    adds fewer than one block, and the added bytes are zeros -/
+theorem ecb_padding (n : Nat) (hn : 0 < n) (bs : Bytes) :
+    (padECB n bs).length % n = 0 ∧ (padECB n bs).take bs.length = bs ∧
+    (padECB n bs).length < bs.length + n ∧ ∀ b ∈ (padECB n bs).drop bs.length, b = 0 :=
+  padECB_facts n hn bs
+
+example : padECB 8 [1, 2, 3] = [1, 2, 3, 0, 0, 0, 0, 0] ∧ padECB 4 [1, 2, 3, 4] = [1, 2, 3, 4] := by decide
+example : secureFrame 10 0 5 7 (-1) [1] = [10, 0, 0, 0, 0, 0, 0, 0, 0, 5, 0, 0, 0, 7, 255, 255, 255, 255, 0, 0, 0, 1, 1] := by decide
+
 /-- the payload starts with the 2-byte pack type -/
 theorem payload_layout (ty : Nat) (body r : Bytes) (h : ty < 65536) :
     payload ty body = beN 2 ty ++ body ∧ P.run (rdU 2) (payload ty body ++ r) = some (ty, body ++ r) := by
@@ -170,6 +193,86 @@ theorem taghash_stored (stored : Int) (tags : List (Bytes × Value)) (h : stored
     effTagHash stored tags = stored := by
   unfold effTagHash
   rcases h with h | h <;> simp [h]
+
+/-! ### one pack object sent again and again (what the re-send-after-mutation stage checks on real objects)
+
+  The model of a live pack object is its public state `σ`; between sends the application changes it in any way
+  (`mutate f`, `f` arbitrary); a send emits `enc σ` and leaves the state as `after σ`.  For the eight packs `enc`
+  is the reference encoder (a function of the state: nothing else can influence the bytes) and `after` is the
+  identity, except for the two tag-hash packs where a send stores the effective tag hash (`norm`).  That the Go
+  objects carry no other state from one Write to the next is tie A (`C05Gen.pack_state_*`). -/
+
+inductive ObjOp (σ : Type) where
+  | mutate (f : σ → σ)
+  | send
+
+/-- run a history on an object: the frames emitted (oldest first) and the final state -/
+def runObj {σ : Type} (enc : σ → Bytes) (after : σ → σ) : List (ObjOp σ) → σ → List Bytes × σ
+  | [], s => ([], s)
+  | .mutate f :: ops, s => runObj enc after ops (f s)
+  | .send :: ops, s => ((enc s :: (runObj enc after ops (after s)).1), (runObj enc after ops (after s)).2)
+
+/-- the public states the object had at its sends -/
+def statesAtSends {σ : Type} (after : σ → σ) : List (ObjOp σ) → σ → List σ
+  | [], _ => []
+  | .mutate f :: ops, s => statesAtSends after ops (f s)
+  | .send :: ops, s => s :: statesAtSends after ops (after s)
+
+/-- **re-send clause**: for every history of mutations and sends, every frame sent is the encoding of the
+    public state the object had at that send — nothing of an earlier send survives in it -/
+theorem resend_frames_are_current_state {σ : Type} (enc : σ → Bytes) (after : σ → σ) (ops : List (ObjOp σ)) (s : σ) :
+    (runObj enc after ops s).1 = (statesAtSends after ops s).map enc := by
+  induction ops generalizing s with
+  | nil => rfl
+  | cons op ops ih =>
+    cases op with
+    | mutate f => exact ih (f s)
+    | send => simp [runObj, statesAtSends, ih]
+
+theorem effTagHash_idem (stored : Int) (tags : List (Bytes × Value)) :
+    effTagHash (effTagHash stored tags) tags = effTagHash stored tags := by
+  unfold effTagHash
+  by_cases h : stored = 0 ∧ tags ≠ []
+  · rw [if_pos h]
+    by_cases h2 : hash64 (encMap tags) = 0 ∧ tags ≠ []
+    · rw [if_pos h2]
+    · rw [if_neg h2]
+  · rw [if_neg h, if_neg h]
+
+/-- frame condition of a send of a tag-count pack: only the stored tag hash changes, and it becomes the hash
+    that was written; sending again without a mutation sends the same bytes -/
+theorem send_tagcount_frame_condition (p : TagCount) :
+    p.norm.hdr = p.hdr ∧ p.norm.category = p.category ∧ p.norm.tags = p.tags ∧ p.norm.data = p.data ∧
+    p.norm.tagHash = effTagHash p.tagHash p.tags ∧ p.norm.norm = p.norm ∧ encTagCount p.norm = encTagCount p := by
+  have e : p.norm.norm = p.norm := by
+    simp [TagCount.norm, effTagHash_idem]
+  refine ⟨rfl, rfl, rfl, rfl, rfl, e, ?_⟩
+  unfold encTagCount
+  rw [e]
+
+theorem send_logsink_frame_condition (p : LogSink) :
+    p.norm.hdr = p.hdr ∧ p.norm.category = p.category ∧ p.norm.tags = p.tags ∧ p.norm.line = p.line ∧
+    p.norm.content = p.content ∧ p.norm.fields = p.fields ∧
+    p.norm.tagHash = effTagHash p.tagHash p.tags ∧ p.norm.norm = p.norm ∧ encLogSink p.norm = encLogSink p := by
+  have e : p.norm.norm = p.norm := by
+    simp [LogSink.norm, effTagHash_idem]
+  refine ⟨rfl, rfl, rfl, rfl, rfl, rfl, rfl, e, ?_⟩
+  unfold encLogSink
+  rw [e]
+
+/-- a tag-count pack that was sent (hash stored) and whose tags are then changed sends the STORED hash with the
+    NEW tag map (the pack recomputes the hash only when it is 0) — the documented behaviour the harness takes
+    as part of the public state (`GetTagHash`) -/
+theorem resend_after_tag_change (p : TagCount) (tags' : List (Bytes × Value)) (h : p.norm.tagHash ≠ 0) :
+    encTagCount { p.norm with tags := tags' } =
+      encHdr p.hdr ++ ([0] ++ (encText p.category ++ (encDecimal p.norm.tagHash ++ (encMap tags' ++ encMap p.data)))) := by
+  have e : effTagHash p.norm.tagHash tags' = p.norm.tagHash := taghash_stored _ _ (Or.inl h)
+  show encHdr p.hdr ++ ([0] ++ (encText p.category ++ (encDecimal (effTagHash p.norm.tagHash tags') ++ (encMap tags' ++ encMap p.data)))) = _
+  rw [e]
+
+example : (runObj encZip id [.send, .mutate (fun p => { p with status := 7 }), .send] ⟨⟨5, 1, 0, 0, 1000⟩, 1, 2, [1, 2]⟩).1
+    = [encZip ⟨⟨5, 1, 0, 0, 1000⟩, 1, 2, [1, 2]⟩, encZip ⟨⟨5, 1, 0, 0, 1000⟩, 7, 2, [1, 2]⟩] := by
+  rw [resend_frames_are_current_state]; rfl
 
 /-! ### decodability: the reference decoder inverts the reference encoder, for each of the eight bodies
 
